@@ -26,6 +26,15 @@ OPNAMES = {0: "NewScope", 1: "Enter", 2: "Exit", 3: "Cancel", 4: "SetShield", 5:
 CANCEL_RE = re.compile(r"Cancelled via cancel scope ([0-9a-f]+)")
 
 
+class _Hostile:
+    """An object that cannot be printed."""
+
+    def __repr__(self):
+        raise RuntimeError("repr() of a user object failed")
+
+    __str__ = __repr__
+
+
 class SPuppet:
     def __init__(self, world: "SWorld", tid: int, spawned: bool):
         self.world = world
@@ -515,7 +524,12 @@ class SWorld:
                 await anyio.sleep(float(b))
 
         async def hold(p):
-            p.held = ValueError(b)
+            # every third error carries an argument whose repr()/str() raise: user exceptions are arbitrary objects
+            # and the library must not depend on being able to print them (deterministic in the op index)
+            if (len(w.ops) // 4) % 3 == 0:
+                p.held = ValueError(b, _Hostile())
+            else:
+                p.held = ValueError(b)
 
         async def drop(p):
             p.held = None
